@@ -43,40 +43,46 @@ func CheckImmutable(
 	}
 
 	for file := range filesToCheck {
+		// Walk each top-level declaration separately: the enclosing function and receiver are
+		// properties of the declaration being walked, not of whatever function came before it
+		for _, decl := range file.Decls {
+			currentFunction := ""
+			ctx.currentFunction = &currentFunction
+			ctx.currentReceiver = nil
 
-		// First pass: check simple assignments and inc/dec operations
-		// We skip compound assignments (+=, -=, etc.) here to avoid duplicates
-		ast.Inspect(file, func(n ast.Node) bool {
-			switch node := n.(type) {
-			case *ast.FuncDecl:
-				ctx.currentFunction = &node.Name.Name
+			if funcDecl, ok := decl.(*ast.FuncDecl); ok {
+				currentFunction = funcDecl.Name.Name
 
 				// Track receiver information for methods
-				ctx.currentReceiver = extractReceiverInfo(ctx.pass, node)
-				return true
+				ctx.currentReceiver = extractReceiverInfo(ctx.pass, funcDecl)
+			}
 
-			case *ast.AssignStmt:
-				// Only process compound assignments here
-				// Check: x.field += value, x.field *= value, etc.
-				if node.Tok != token.ASSIGN {
-					v := checkCompoundAssignment(ctx, node)
+			// We skip compound assignments (+=, -=, etc.) in checkAssignment to avoid duplicates
+			ast.Inspect(decl, func(n ast.Node) bool {
+				switch node := n.(type) {
+				case *ast.AssignStmt:
+					// Only process compound assignments here
+					// Check: x.field += value, x.field *= value, etc.
+					if node.Tok != token.ASSIGN {
+						v := checkCompoundAssignment(ctx, node)
+						violations = append(violations, v...)
+						return true
+					}
+
+					// Check: x.field = value, x.items[0] = value
+					v := checkAssignment(ctx, node)
+					violations = append(violations, v...)
+					return true
+
+				case *ast.IncDecStmt:
+					// Check: x.field++, x.field--
+					v := checkIncDec(ctx, node)
 					violations = append(violations, v...)
 					return true
 				}
-
-				// Check: x.field = value, x.items[0] = value
-				v := checkAssignment(ctx, node)
-				violations = append(violations, v...)
 				return true
-
-			case *ast.IncDecStmt:
-				// Check: x.field++, x.field--
-				v := checkIncDec(ctx, node)
-				violations = append(violations, v...)
-				return true
-			}
-			return true
-		})
+			})
+		}
 	}
 
 	return violations
